@@ -25,6 +25,7 @@ Step(e) ==
               [] e.ev = "Block"  -> BlockViol(e)
               [] e.ev = "View"   -> (IF C07_ViewNoEffect(ToSet(e.changed), e.metaSame) THEN {} ELSE {<<"C07_ViewNoEffect", ToSet(e.changed)>>})
                                     \cup (IF e.nrec = e.n THEN {} ELSE {<<"C08_OneReceiptPerTx", "view">>})
+              [] e.ev = "ViewProbe" -> IF C07_ViewLeavesNothing(e.same) THEN {} ELSE {<<"C07_ViewLeavesNothing", e.diff>>}
               [] e.ev = "RootPair" ->
                    \* C10: the tx root commits to the transaction sequence, the receipt root to the receipts in block order;
                    \* the state root is the same for the same (commuting) transfers in another order
